@@ -7,9 +7,12 @@ faithfulness to the bytes is C05), so the statement needs no byte spans.
 
 The full statement `C20_full` is FALSE of the current code (`C20_counterexample`): `parse_idle` casts the input
 byte to `vk`, and the enumeration continues above 0x7F with the abstract keys, so the 22 bytes 0x80–0x96
-other than 0x8F (SS3) are reported as `cursor_up … f12`.  What is proved instead is `C20_partial`, whose two
-exclusions are exact: a raw byte from precisely that set, or a numeric parameter ≥ 2^31 (`atoi` wraps, so
-`CSI 4294967307 ~` is reported as F1).  Both are recorded as known findings.
+other than 0x8F (SS3) are reported as `cursor_up … f12`.  What is proved instead is `C20_partial`, whose single
+exclusion is exact: a raw byte from precisely that set (recorded as known findings, one per byte).
+
+A second exclusion the first version of this proof needed – numeric parameters ≥ 2^31, where `atoi` wrapped and
+`CSI 4294967307 ~` was reported as F1 – is gone: the defect was repaired in /repo (`argument_to_integer` clamps),
+the model follows the code, and `C20_large_parameter_names_no_key` states the repaired behaviour.
 -/
 namespace Tpp.Props.C20
 open Tpp Tpp.Ref
@@ -32,16 +35,15 @@ def C20_full : Prop :=
 def collides (b : Byte) : Bool := 0x80 ≤ b && b ≤ 0x96 && b != 0x8F
 
 /-- PROVED PART.  Every abstract-key token has a designating sequence, or is a line ending, or carries a raw
-    byte from exactly the colliding set (and then names the key whose enumerator value is that byte), or its
-    sequence has a parameter ≥ 2^31.  A single ordinary byte is always reported as the key of that value; that
-    key is abstract exactly for the colliding bytes. -/
+    byte from exactly the colliding set (and then names the key whose enumerator value is that byte) – for
+    parameters of ANY size.  A single ordinary byte is always reported as the key of that value; that key is
+    abstract exactly for the colliding bytes. -/
 theorem C20_partial :
     (∀ (st : PState), st.ctl = .idle → ∀ (bs : List Byte) (k : VKey), Token.key k ∈ tokens st bs →
       isAbstractKey k.key = true →
       (∃ c, k.seq = .ctrl c ∧ designates c k.key = true)
       ∨ (k.key = Consts.vk_enter ∧ k.seq = .byte 0x0A)
-      ∨ (∃ b : Byte, k.seq = .byte b ∧ collides b = true ∧ k.key = b.toNat)
-      ∨ (∃ c, k.seq = .ctrl c ∧ ∃ a ∈ c.args, 2147483648 ≤ parseDec a 0))
+      ∨ (∃ b : Byte, k.seq = .byte b ∧ collides b = true ∧ k.key = b.toNat))
     ∧ (∀ (st : PState), st.ctl = .idle → ∀ b : Byte, isOrdinary b = true →
       tokens st [b] = [plainKey b] ∧ (isAbstractKey b.toNat = true ↔ collides b = true)) := by
   constructor
@@ -57,16 +59,14 @@ theorem C20_partial :
       · subst hk; exact Or.inr (Or.inl ⟨rfl, rfl⟩)
       · subst hk
         have hr := abstract_byte b habs
-        refine Or.inr (Or.inr (Or.inl ⟨b, rfl, ?_, rfl⟩))
+        refine Or.inr (Or.inr ⟨b, rfl, ?_, rfl⟩)
         have : ∀ b : Byte, isOrdinary b = true → 0x80 ≤ b ∧ b ≤ 0x96 → collides b = true := by decide +kernel
         exact this b hb hr
     | mouse ev x y => simp [wellKnown] at hwk
     | ctrl c =>
       simp only [wellKnown] at hwk
       obtain ⟨hseq, hd⟩ := convertCommon_key c k hok.2 hwk
-      rcases hd with hd | hd
-      · exact Or.inl ⟨c, hseq, hd⟩
-      · exact Or.inr (Or.inr (Or.inr ⟨c, hseq, hd⟩))
+      exact Or.inl ⟨c, hseq, hd⟩
   · intro st hidle b hb
     have hfacts : ∀ b : Byte, isOrdinary b = true →
         (b ≠ 0x1B ∧ b ≠ 0x0D ∧ b ≠ 0x0A ∧ b ≠ 0x9B ∧ b ≠ 0x8F)
@@ -88,13 +88,12 @@ theorem C20_counterexample_stream :
     Token.key { key := Consts.vk_cursor_up, mods := 0, rep := 1, seq := .byte 0x80 } ∈ tokens PState.init [0xC4, 0x80]
     ∧ isAbstractKey Consts.vk_cursor_up = true := by decide +kernel
 
-/-- the second exclusion is real as well: `ESC [ 4294967307 ~` is reported as F1 although the parameter
-    4294967307 names no key -/
-theorem C20_counterexample_atoi :
+/-- a parameter that does not fit an `int` names no key: `ESC [ 4294967307 ~` (which the unrepaired code
+    reported as F1, because 4294967307 ≡ 11 mod 2^32) is handed to the client as a plain control sequence -/
+theorem C20_large_parameter_names_no_key :
     tokens PState.init [0x1B, 0x5B, 0x34, 0x32, 0x39, 0x34, 0x39, 0x36, 0x37, 0x33, 0x30, 0x37, 0x7E]
-      = [.key { key := Consts.vk_f1, mods := 0, rep := 1,
-                seq := .ctrl { initiator := 0x5B, command := 0x7E, metaFlag := false,
-                               args := [[0x34, 0x32, 0x39, 0x34, 0x39, 0x36, 0x37, 0x33, 0x30, 0x37]], extender := 0 } }]
+      = [.ctrl { initiator := 0x5B, command := 0x7E, metaFlag := false,
+                 args := [[0x34, 0x32, 0x39, 0x34, 0x39, 0x36, 0x37, 0x33, 0x30, 0x37]], extender := 0 }]
     ∧ designates { initiator := 0x5B, command := 0x7E, metaFlag := false,
                    args := [[0x34, 0x32, 0x39, 0x34, 0x39, 0x36, 0x37, 0x33, 0x30, 0x37]], extender := 0 } Consts.vk_f1 = false := by
   decide +kernel
